@@ -28,7 +28,7 @@ EXPLANATION = (
 )
 ASSUMPTIONS = ["Distribution.draw_mw stubbed (same targets handed to both runs)", "embed / UFF stubbed", "python-level state only: hash randomisation, threads, process state are outside"]
 OUTSIDE = ["histories longer than 1 (quick) / 2 (thorough) operations between the two generations (each history also contains run A itself)", "System.generator (cannot be handed a generator)", "force-field typing inside histories (covered by C20)"]
-REQUIRED_LABELS = ["same molecule after any history", "parsed object unchanged by the operation", "global generator untouched"]
+REQUIRED_LABELS = ["same molecule after any history", "same options and probabilities at every decision after any history", "parsed object unchanged by the operation", "global generator untouched"]
 
 SK = ["homo-prefix-suffix", "left-terminal-list", "endgroup-initiated", "block-with-connector", "random-copolymer-weighted", "star-three-descriptors"]
 SECOND = [0, 3, 4, 5, 9]  # generate, reaction-graph, atom-graph, mirror, parse-again
@@ -170,8 +170,9 @@ def run_case(case, g, tier, res):
                 detail("printed form / generability changed by the history"))
         # ---- run B with the same stream
         gen.DRAW_FN[0] = gen.scripted_draw(list(targets))
+        frng = FixedRng(picks, rng.other_calls)
         try:
-            rb = B.generate(rng=FixedRng(picks))
+            rb = B.generate(rng=frng)
             smiB, wB = rb.smiles, rb.weight
         except gendrive.ReplayDone:
             smiB, wB = None, None
@@ -179,6 +180,14 @@ def run_case(case, g, tier, res):
             core.reraise_if_harness(e)
             smiB, wB = f"raised {type(e).__name__}", None
         c.prove(smiB == smiA and wB == wA, "same molecule after any history", detail("the same string and stream give another molecule after this history"))
+        # the second run must also have been offered the same options with the same probabilities at every decision
+        recA = [(r.n, r.p) for r in rng.calls]
+        recB = frng.records
+        shape = len(recA) == len(recB) and all(na == nb and (pa is None) == (pb is None) and (pa is None or len(pa) == len(pb))
+                                                for (na, pa), (nb, pb) in zip(recA, recB))
+        eqs = [x == y for (na, pa), (nb, pb) in zip(recA, recB) if pa is not None and pb is not None and len(pa) == len(pb) for x, y in zip(pa, pb)] if shape else []
+        c.prove(shape and And(*eqs), "same options and probabilities at every decision after any history",
+                detail("the same string and stream are offered other options / probabilities after this history"))
         return smiA
 
     explore_case(res, h, tier, on_path=on_path, budget_s=900)
@@ -204,7 +213,8 @@ def replay(rp, gb):
     st0 = copy.deepcopy(gcore._GLOBAL_RNG.bit_generator.state)
     s0 = str(A)
     try:
-        ra = A.generate(rng=gendrive.ScriptedRng(rp["picks"]))
+        A_rng = gendrive.ScriptedRng(rp["picks"])
+        ra = A.generate(rng=A_rng)
     except gendrive.ReplayDone:
         return False, "stream ended"
     if str(A) != s0:
@@ -229,13 +239,21 @@ def replay(rp, gb):
         problems.append("printed form changed")
     gen.DRAW_FN[0] = gen.scripted_draw(list(rp["targets"]))
     try:
-        rb = B.generate(rng=gendrive.ScriptedRng(rp["picks"]))
+        B_rng = gendrive.ScriptedRng(rp["picks"])
+        rb = B.generate(rng=B_rng)
         same = rb.smiles == ra.smiles and abs(rb.weight - ra.weight) < 1e-9
     except Exception as e:
         same = False
         problems.append(f"second run raised {type(e).__name__}")
     if not same:
         problems.append("another molecule after the history")
+    try:
+        ca, cb = A_rng.calls, B_rng.calls
+        if len(ca) != len(cb) or any(x.n != y.n or (x.p is None) != (y.p is None) or (x.p is not None and (len(x.p) != len(y.p) or any(
+                abs(u - v) > 1e-9 * max(1.0, abs(u)) for u, v in zip(x.p, y.p)))) for x, y in zip(ca, cb)):
+            problems.append("other options / probabilities after the history")
+    except Exception as e:
+        problems.append(f"comparison of the decisions failed: {type(e).__name__}")
     if rp["what"].startswith("a target mass is drawn"):
         return any(p.startswith("a target mass is drawn") for p in problems), f"{problems}"
     return bool(problems), f"{problems}"
